@@ -10,7 +10,6 @@ use super::context::{
     Config, Error, Node, ValidationContext, ValidationState,
 };
 use super::utilities::{make_ede, map_dname, ttl_for_sig};
-use crate::base::cmp::CanonicalOrd;
 use crate::base::iana::ExtendedErrorCode;
 use crate::base::iana::class::Class;
 use crate::base::name::ToName;
@@ -649,8 +648,11 @@ impl Group {
         let ts_now = Timestamp::now();
         #[cfg(feature = "verif-hooks")]
         let ts_now = super::verif_clock::shift_timestamp(ts_now);
-        if ts_now.canonical_gt(&sig.data().expiration())
-            || ts_now.canonical_lt(&sig.data().inception())
+        //
+        // RFC 4034, Section 3.1.5: the two fields are 32-bit serial numbers
+        // and have to be compared using serial number arithmetic.
+        if ts_now > sig.data().expiration()
+            || ts_now < sig.data().inception()
         {
             return false;
         }
